@@ -44,6 +44,80 @@ def _diff_reads(value):
     return None
 
 
+def axis_wrapper(ctx, rule="R08.3"):
+    """vario_estimate_axis: the NaN-blind kernel is used only for complete data; missing values are ADDED to the mask the field carries;
+    field and mask get the same axis transformation; the masked kernel receives that mask."""
+    prog = ctx.prog
+    # wrapper-level guard for `structured`
+    vea = prog.func(VAR, "vario_estimate_axis")
+    site = VAR + "::vario_estimate_axis"
+    calls = [n for n in ast.walk(vea) if isinstance(n, ast.Call) and isinstance(n.func, ast.Name) and n.func.id == "_structured"]
+    if len(calls) != 1:
+        raise AnalysisError("anchor vanished: _structured call in vario_estimate_axis")
+    # the statement containing the call
+    stmt = [s for s in ast.walk(vea) if isinstance(s, (ast.Return, ast.Assign, ast.Expr)) and any(n is calls[0] for n in ast.walk(s))][0]
+    pc = O.path_condition(vea, stmt)
+    guard_names = {ast.unparse(e) for e, p in pc if not p and isinstance(e, ast.Name)}
+    defs = {}
+    for n in ast.walk(vea):
+        if isinstance(n, ast.Assign) and len(n.targets) == 1 and isinstance(n.targets[0], ast.Name):
+            defs.setdefault(n.targets[0].id, []).append(n.value)
+    for nm, cond in small.flag_definitions(vea).items():
+        defs[nm] = [cond]
+    ok = False
+    why = "no `not <flag>` guard dominates the unmasked kernel call"
+    for g in guard_names:
+        vs = defs.get(g, [])
+        if len(vs) == 1:
+            txt = ast.unparse(vs[0])
+            # flag must include masked-array test and the missing-value test
+            miss_names = [nm for nm in small_names(vs[0]) if nm in defs]
+            closure = txt
+            for nm in miss_names:
+                closure += " ; " + " | ".join(ast.unparse(v) for v in defs[nm] if not (isinstance(v, ast.Constant) and v.value is None))
+                for nm2 in small_names_list(defs[nm]):
+                    if nm2 in defs:
+                        closure += " ; " + " | ".join(ast.unparse(v) for v in defs[nm2] if not (isinstance(v, ast.Constant) and v.value is None))
+            ok = isinstance(vs[0], ast.BoolOp) and isinstance(vs[0].op, ast.Or) and "np.ma.is_masked(field)" in closure and "np.isnan(field)" in closure and "np.isclose(field, no_data)" in closure
+            why = "guard flag %s := %s" % (g, closure[:160])
+    ctx.check(ok, rule, site, "the NaN-blind kernel `structured` is reachable only when the field has no mask, no NaN and no no-data value: " + why, "structured-guard")
+    # missing values are ADDED to the user's mask: the mask of the rebuilt field is (old mask) OR (missing)
+    miss_if = [s for s in ast.walk(vea) if isinstance(s, ast.If) and ast.unparse(s.test) == "missing"]
+    rebuilt = [n for s in miss_if for n in ast.walk(s) if isinstance(n, ast.Assign) and ast.unparse(n.targets[0]) == "field"]
+    ok = False
+    got = "no rebuild of the field under `if missing:`"
+    if len(rebuilt) == 1 and isinstance(rebuilt[0].value, ast.Call):
+        call = rebuilt[0].value
+        fn_t = ast.unparse(call.func)
+        got = ast.unparse(call)[:100]
+        if fn_t in ("np.ma.array", "np.ma.masked_array"):
+            mk = [k.value for k in call.keywords if k.arg == "mask"]
+            if len(mk) == 1:
+                m_ = mk[0]
+                parts = []
+                if isinstance(m_, ast.Call) and ast.unparse(m_.func) == "np.logical_or":
+                    parts = [ast.unparse(a) for a in m_.args]
+                elif isinstance(m_, ast.BinOp) and isinstance(m_.op, ast.BitOr):
+                    parts = [ast.unparse(m_.left), ast.unparse(m_.right)]
+                old_mask = {"field.mask", "np.ma.getmaskarray(field)", "np.ma.getmask(field)"}
+                ok = len(parts) == 2 and "missing_mask" in parts and bool(set(parts) & old_mask)
+        elif fn_t == "np.ma.masked_where":
+            ok = len(call.args) >= 2 and ast.unparse(call.args[0]) == "missing_mask" and ast.unparse(call.args[1]) == "field"
+    ctx.check(ok, rule, site, "missing values are added to the mask the field already carries (old mask OR missing): %s" % got, "mask-union")
+    mcalls = [n for n in ast.walk(vea) if isinstance(n, ast.Call) and isinstance(n.func, ast.Name) and n.func.id == "_ma_structured"]
+    ok = len(mcalls) == 1 and len(mcalls[0].args) >= 2 and ast.unparse(mcalls[0].args[1]) == "mask"
+    ctx.check(ok, rule, site, "masked path hands the mask (incl. missing values) to ma_structured", "ma-call")
+    # mask and field get the same axis transformation
+    tf = {}
+    for n in ast.walk(vea):
+        if isinstance(n, ast.Assign) and isinstance(n.targets[0], ast.Name) and n.targets[0].id in ("field", "mask") and isinstance(n.value, ast.Call) and isinstance(n.value.func, ast.Attribute) and n.value.func.attr in ("swapaxes", "reshape"):
+            nm = n.targets[0].id
+            tf.setdefault(nm, []).append(ast.unparse(n.value).replace(nm, "X"))
+    ctx.check(tf.get("field") == tf.get("mask") and tf.get("field"), rule, site,
+              "field and mask undergo the same swapaxes/reshape sequence: %s" % tf.get("field"), "mask-layout")
+
+
+
 def nan_guard(ctx, rule="R08.3"):
     """pair kernels: a pair is accumulated iff NEITHER of the two differenced values is NaN (the kernels' skip value)"""
     prog = ctx.prog
@@ -102,6 +176,23 @@ def normalisation_guard(ctx, rule="R08.4"):
         n += len(divs)
         ctx.check(bool(divs) and not bad, rule, "%s::%s" % (EST, v), "every division by a pair count is by max(count, 1): %s" % (sorted(set(bad)) or "all guarded"), "count-guard")
     ctx.floor(rule, "divisions in the normalisation helpers", n, 3)
+    # Matheron: the accumulated squared differences are divided by twice the pair count - as an expanded quotient, whatever the spelling
+    fn = prog.func(EST, "normalization_matheron")
+    upd = [a for a in ast.walk(fn) if isinstance(a, (ast.AugAssign, ast.Assign)) and ast.unparse(a.target if isinstance(a, ast.AugAssign) else a.targets[0]) == "variogram[i]"]
+    okm = False
+    got = "?"
+    if len(upd) == 1:
+        a = upd[0]
+        eff = ast.BinOp(a.target, a.op, a.value) if isinstance(a, ast.AugAssign) else a.value
+        ms = small.monomials(ast.fix_missing_locations(eff))
+        got = str(ms)
+        okm = len(ms) == 1 and ms[0][0] == 1 and ms[0][1] == ("variogram[i]",) and sorted(ms[0][2]) in (sorted(("2.0", "max(counts[i], 1)")), sorted(("2", "max(counts[i], 1)")))
+    ctx.check(okm, rule, EST + "::normalization_matheron", "variogram[i] becomes variogram[i] / (2 * max(count, 1)): %s" % got[:120], "matheron-quotient")
+    # the axis kernels visit every cell pair: no `break` (the only documented early exit of the pair kernels is the separated-directions break of `directional`)
+    for k in ("structured", "ma_structured", "unstructured"):
+        kfn = prog.func(EST, k)
+        brk = [b for b in ast.walk(kfn) if isinstance(b, ast.Break)]
+        ctx.check(not brk, rule, "%s::%s" % (EST, k), "no `break` leaves a loop over cells / pairs early (%d found)" % len(brk), "no-break")
 
 
 def mask_guard(ctx, rule="R08.3"):
@@ -377,88 +468,28 @@ def run(ctx):
         else:
             ctx.check(not pc, "R08.3", site, "unmasked axis kernel accumulates unconditionally (missing values are excluded by the wrapper, below)", "uncond")
 
-    # wrapper-level guard for `structured`
-    vea = prog.func(VAR, "vario_estimate_axis")
-    site = VAR + "::vario_estimate_axis"
-    calls = [n for n in ast.walk(vea) if isinstance(n, ast.Call) and isinstance(n.func, ast.Name) and n.func.id == "_structured"]
-    if len(calls) != 1:
-        raise AnalysisError("anchor vanished: _structured call in vario_estimate_axis")
-    # the statement containing the call
-    stmt = [s for s in ast.walk(vea) if isinstance(s, (ast.Return, ast.Assign, ast.Expr)) and any(n is calls[0] for n in ast.walk(s))][0]
-    pc = O.path_condition(vea, stmt)
-    guard_names = {ast.unparse(e) for e, p in pc if not p and isinstance(e, ast.Name)}
-    defs = {}
-    for n in ast.walk(vea):
-        if isinstance(n, ast.Assign) and len(n.targets) == 1 and isinstance(n.targets[0], ast.Name):
-            defs.setdefault(n.targets[0].id, []).append(n.value)
-    for nm, cond in small.flag_definitions(vea).items():
-        defs[nm] = [cond]
-    ok = False
-    why = "no `not <flag>` guard dominates the unmasked kernel call"
-    for g in guard_names:
-        vs = defs.get(g, [])
-        if len(vs) == 1:
-            txt = ast.unparse(vs[0])
-            # flag must include masked-array test and the missing-value test
-            miss_names = [nm for nm in small_names(vs[0]) if nm in defs]
-            closure = txt
-            for nm in miss_names:
-                closure += " ; " + " | ".join(ast.unparse(v) for v in defs[nm] if not (isinstance(v, ast.Constant) and v.value is None))
-                for nm2 in small_names_list(defs[nm]):
-                    if nm2 in defs:
-                        closure += " ; " + " | ".join(ast.unparse(v) for v in defs[nm2] if not (isinstance(v, ast.Constant) and v.value is None))
-            ok = isinstance(vs[0], ast.BoolOp) and isinstance(vs[0].op, ast.Or) and "np.ma.is_masked(field)" in closure and "np.isnan(field)" in closure and "np.isclose(field, no_data)" in closure
-            why = "guard flag %s := %s" % (g, closure[:160])
-    ctx.check(ok, "R08.3", site, "the NaN-blind kernel `structured` is reachable only when the field has no mask, no NaN and no no-data value: " + why, "structured-guard")
-    # missing values are ADDED to the user's mask: the mask of the rebuilt field is (old mask) OR (missing)
-    miss_if = [s for s in ast.walk(vea) if isinstance(s, ast.If) and ast.unparse(s.test) == "missing"]
-    rebuilt = [n for s in miss_if for n in ast.walk(s) if isinstance(n, ast.Assign) and ast.unparse(n.targets[0]) == "field"]
-    ok = False
-    got = "no rebuild of the field under `if missing:`"
-    if len(rebuilt) == 1 and isinstance(rebuilt[0].value, ast.Call):
-        call = rebuilt[0].value
-        fn_t = ast.unparse(call.func)
-        got = ast.unparse(call)[:100]
-        if fn_t in ("np.ma.array", "np.ma.masked_array"):
-            mk = [k.value for k in call.keywords if k.arg == "mask"]
-            if len(mk) == 1:
-                m_ = mk[0]
-                parts = []
-                if isinstance(m_, ast.Call) and ast.unparse(m_.func) == "np.logical_or":
-                    parts = [ast.unparse(a) for a in m_.args]
-                elif isinstance(m_, ast.BinOp) and isinstance(m_.op, ast.BitOr):
-                    parts = [ast.unparse(m_.left), ast.unparse(m_.right)]
-                old_mask = {"field.mask", "np.ma.getmaskarray(field)", "np.ma.getmask(field)"}
-                ok = len(parts) == 2 and "missing_mask" in parts and bool(set(parts) & old_mask)
-        elif fn_t == "np.ma.masked_where":
-            ok = len(call.args) >= 2 and ast.unparse(call.args[0]) == "missing_mask" and ast.unparse(call.args[1]) == "field"
-    ctx.check(ok, "R08.3", site, "missing values are added to the mask the field already carries (old mask OR missing): %s" % got, "mask-union")
-    mcalls = [n for n in ast.walk(vea) if isinstance(n, ast.Call) and isinstance(n.func, ast.Name) and n.func.id == "_ma_structured"]
-    ok = len(mcalls) == 1 and len(mcalls[0].args) >= 2 and ast.unparse(mcalls[0].args[1]) == "mask"
-    ctx.check(ok, "R08.3", site, "masked path hands the mask (incl. missing values) to ma_structured", "ma-call")
-    # mask and field get the same axis transformation
-    tf = {}
-    for n in ast.walk(vea):
-        if isinstance(n, ast.Assign) and isinstance(n.targets[0], ast.Name) and n.targets[0].id in ("field", "mask") and isinstance(n.value, ast.Call) and isinstance(n.value.func, ast.Attribute) and n.value.func.attr in ("swapaxes", "reshape"):
-            nm = n.targets[0].id
-            tf.setdefault(nm, []).append(ast.unparse(n.value).replace(nm, "X"))
-    ctx.check(tf.get("field") == tf.get("mask") and tf.get("field"), "R08.3", site,
-              "field and mask undergo the same swapaxes/reshape sequence: %s" % tf.get("field"), "mask-layout")
+    axis_wrapper(ctx, rule="R08.3")
 
     # ---------------------------------------------------------------- R08.4 dispatch tables
     fam = {}
     for ch in ("choose_estimator_func", "choose_estimator_normalization", "choose_estimator_normalization_vec"):
         fn = prog.func(EST, ch)
-        ifs = [s for s in fn.body if isinstance(s, ast.If)]
         site = "%s::%s" % (EST, ch)
-        if len(ifs) != 1 or not isinstance(ifs[0].test, ast.Compare) or not ifs[0].orelse:
-            ctx.undecided("R08.4", site, "dispatcher shape not recognised")
+        # the dispatcher as a decision table over its key (if/else, default-then-override, early return: all the same table)
+        try:
+            table = small.merge_cases(small.return_cases(fn))
+        except small.UnrollError as e:
+            ctx.undecided("R08.4", site, "dispatcher is not a decision table: %s" % e)
             continue
-        key = ast.literal_eval(ifs[0].test.comparators[0]) if isinstance(ifs[0].test.ops[0], ast.Eq) else None
-        then = ast.unparse(ifs[0].body[0].value) if isinstance(ifs[0].body[0], ast.Assign) else "?"
-        els = ast.unparse(ifs[0].orelse[0].value) if isinstance(ifs[0].orelse[0], ast.Assign) else "?"
+        par = fn.args.args[0].arg
+        rows = {next(iter(c)) if len(c) == 1 else None: v for c, v in table}
+        then, els = rows.get("%s == 'm'" % par), rows.get("%s != 'm'" % par)
+        if len(table) != 2 or then is None or els is None:
+            ctx.violation("R08.4", site, "dispatcher does not split on %s == 'm' / otherwise: %s" % (par, [(sorted(c), v) for c, v in table]), "dispatch")
+            continue
+        key = "m"
         fam[ch] = (key, "matheron" in then, "cressie" in els)
-        ctx.check(key == "m" and "matheron" in then and "cressie" in els and then in mod.functions and els in mod.functions, "R08.4", site,
+        ctx.check("matheron" in then and "cressie" in els and then in mod.functions and els in mod.functions, "R08.4", site,
                   "'%s' -> %s, otherwise -> %s" % (key, then, els), "dispatch")
     ctx.check(len(set(fam.values())) == 1 and len(fam) == 3, "R08.4", EST, "the three dispatchers map the same key to the same estimator family", "dispatch-agree")
     se = prog.func(VAR, "_set_estimator")
@@ -587,6 +618,17 @@ def run(ctx):
     if squares and len(band) == 1 and len(band[0].ops) == 1:
         sides = [ast.unparse(band[0].left), ast.unparse(band[0].comparators[0])]
         okb = sorted(sides) in (sorted(["sqrt(b_dist)", "bandwidth"]), sorted(["b_dist", "bandwidth * bandwidth"]), sorted(["b_dist", "bandwidth ** 2"]))
+    # the direction is an axis, not an arrow: the angle between pair vector and direction uses |scalar product|
+    ang = [n for n in ast.walk(dtf) if isinstance(n, ast.Assign) and isinstance(n.targets[0], ast.Name) and n.targets[0].id == "in_angle" and isinstance(n.value, ast.Compare)]
+    oka = False
+    got_a = "?"
+    if len(ang) == 1:
+        owner = next((b for b in ast.walk(dtf) if isinstance(b, ast.If) and any(x is ang[0] for x in ast.walk(b))), None)
+        env_ = small.sym_eval(dtf.body, stop=ang[0], opaque=("s_prod", "dist"))
+        got_a = small.sym_text(small._sym_subst(ang[0].value, env_))
+        oka = got_a in ("acos(fabs(s_prod) / dist) < angles_tol", "acos(abs(s_prod) / dist) < angles_tol")
+        del owner
+    ctx.check(oka, "R08.5", EST + "::dir_test", "the angle criterion is acos(|s_prod| / dist) < angles_tol (pairs pointing against the direction count as well): %s" % got_a, "angle-abs")
     ctx.check(okb, "R08.5", EST + "::dir_test", "b_dist sums squared offsets; the band test compares it with the bandwidth in the same power (sqrt(b_dist) with bandwidth, or b_dist with bandwidth squared): %s"
               % ([ast.unparse(b) for b in band]), "band-power")
 
